@@ -335,7 +335,7 @@ func cmdCheck(args []string) {
 			"model": f.ob.Result.Model, "per_solver": f.ob.Result.All, "replayed": false,
 		}
 		suffix := " no-failing-input-found"
-		if f.ob.Result.Status == "sat" && f.ob.Query != "" {
+		if violations <= 3 { // replay searches are expensive; the first few failing obligations are enough
 			if ok, detail := tryReplay(p, *repo, *verif, f.ob, rep); ok {
 				suffix = ""
 				rep["replayed"] = true
@@ -343,6 +343,8 @@ func cmdCheck(args []string) {
 			} else {
 				rep["replay_detail"] = detail
 			}
+		} else {
+			rep["replay_detail"] = "replay skipped (earlier failing obligations of this run were replayed)"
 		}
 		if f.ob.Query != "" {
 			qf := strings.TrimSuffix(rp, ".json") + ".smt2"
